@@ -15,7 +15,7 @@ pub const SHARDS: u32 = 8;
 pub fn dispatch(ctx: &Ctx) -> Option<()> {
     match ctx.id.as_str() {
         "C01" | "C02" | "C05" => comm::main(ctx),
-        "C15" => disco::main(ctx),
+        "C15" | "C16" | "C17" => disco::main(ctx),
         "C18" | "C19" | "C20" | "C21" | "C22" | "C23" | "C24" | "C25" => cache::main(ctx),
         _ => return None,
     }
